@@ -63,6 +63,12 @@ pub fn datasets(tier: &str) -> Vec<(String, Vec<(usize, Row)>)> {
     out.push(("groups12".to_string(), (0..12usize).map(|i| { let g = if i < 6 { i % 3 } else { 2 - i % 3 }; (0usize, row(i as i64 + 1, if i % 2 == 0 { "c0" } else { "c1" }, i as i64, i as f64 + 0.5, gs[g], i % 2 == 0, ge[g], Some((i % 4) as i64), 1700000000 + 60 * i as i64)) }).collect()));
     let neg = [-5i64, -3, -9, -1, -7];
     out.push(("allneg5".to_string(), neg.iter().enumerate().map(|(i, k)| (0usize, row(i as i64 + 1, if i % 2 == 0 { "c0" } else { "c1" }, *k, *k as f64 - 0.5, if i < 3 { "a" } else { "b" }, i % 2 == 0, "y", Some(*k * 2), 1700000000 + 3600 * i as i64))).collect()));
+    // the optional integer field holds 0 in some events and nothing in others (a group key 0 next to the
+    // absent key, met in either order by a batch)
+    let zn = [Some(0), None, Some(0), None, Some(1), Some(0), None, Some(1), None];
+    out.push(("zeronull9".to_string(), zn.iter().enumerate().map(|(i, o)| (0usize, row(i as i64 + 1, "c0", 10 * (i as i64 + 1), i as f64 + 0.5, "a", i % 2 == 0, "x", *o, 1700000000 + i as i64))).collect()));
+    let nz = [None, Some(0), None, Some(0), Some(2), None];
+    out.push(("nullzero6".to_string(), nz.iter().enumerate().map(|(i, o)| (0usize, row(i as i64 + 1, if i % 2 == 0 { "c0" } else { "c1" }, 7 * (i as i64 + 1), i as f64 + 0.5, "b", true, "y", *o, 1700000000 + 60 * i as i64))).collect()));
     if tier != "quick" {
         out.push(("last5".to_string(), base[3..].to_vec()));
         out.push(("only-g-3".to_string(), base.iter().filter(|r| r.0 == 0).take(3).cloned().collect()));
